@@ -2613,10 +2613,10 @@ theorem tokenizeBlock_gas_mono (cfg : Cfg) (lines : List Line) (start : Nat) (st
 /-! ### The block phase of `Document(lines)` -/
 
 /-- the buffer `Document.__init__` hands to `tokenize_block` (ghost origins attached) -/
-def docLines (lines : List Str) : List Line := lines.zipIdx.map (fun (s, i) => { s := s, origin := i + 1 })
+def docBuf (lines : List Str) : List Line := lines.zipIdx.map (fun (s, i) => { s := s, origin := i + 1 })
 
 theorem blockPhase_eq (cfg : Cfg) (gas : Nat) (lines : List Str) :
-    blockPhase cfg gas lines = tokenizeBlock cfg gas (docLines lines) 1 {} := rfl
+    blockPhase cfg gas lines = tokenizeBlock cfg gas (docBuf lines) 1 {} := rfl
 
 theorem lw_zipIdx : ∀ (ls : List Str) (k : Nat),
     lw ((ls.zipIdx k).map (fun (s, i) => ({ s := s, origin := i + 1 } : Line))) = (ls.map sw).sum
@@ -2625,10 +2625,10 @@ theorem lw_zipIdx : ∀ (ls : List Str) (k : Nat),
     simp only [List.zipIdx_cons, List.map_cons, lw, List.sum_cons, lw_zipIdx xs (k + 1)]
 
 /-- the weight of a document: its number of characters, a tab counting 4 -/
-theorem lw_docLines (lines : List Str) : lw (docLines lines) = (lines.map sw).sum := lw_zipIdx lines 0
+theorem lw_docBuf (lines : List Str) : lw (docBuf lines) = (lines.map sw).sum := lw_zipIdx lines 0
 
 theorem blockPhase_total (cfg : Cfg) (gas : Nat) (lines : List Str) (hl : ∀ s ∈ lines, NlEnd s)
-    (hg : gasBound cfg (docLines lines) ≤ gas) : ∃ r, blockPhase cfg gas lines = .ok r :=
+    (hg : gasBound cfg (docBuf lines) ≤ gas) : ∃ r, blockPhase cfg gas lines = .ok r :=
   tokenizeBlock_total cfg gas _ 1 {} hg (allNlEnd_zipIdx lines hl)
 
 theorem blockPhase_gas_mono (cfg : Cfg) (lines : List Str) (r) (g g' : Nat) (hle : g ≤ g')
@@ -2637,8 +2637,8 @@ theorem blockPhase_gas_mono (cfg : Cfg) (lines : List Str) (r) (g g' : Nat) (hle
 
 /-- beyond `gasBound` the gas has no influence on the result -/
 theorem blockPhase_gas_irrelevant (cfg : Cfg) (gas : Nat) (lines : List Str) (hl : ∀ s ∈ lines, NlEnd s)
-    (hg : gasBound cfg (docLines lines) ≤ gas) :
-    blockPhase cfg gas lines = blockPhase cfg (gasBound cfg (docLines lines)) lines := by
+    (hg : gasBound cfg (docBuf lines) ≤ gas) :
+    blockPhase cfg gas lines = blockPhase cfg (gasBound cfg (docBuf lines)) lines := by
   obtain ⟨r, hr⟩ := blockPhase_total cfg _ lines hl (Nat.le_refl _)
   rw [hr]
   exact blockPhase_gas_mono cfg lines r _ _ hg hr
